@@ -4,6 +4,7 @@ CONSTANTS
   Amts = {1000, 1001, 59975, 60000, 70000}
   IncFees = {FALSE, TRUE}
   NChanges = {1, 2}
+  QuietW2 = FALSE
   Srcs = {"", "a1"}
   ActIs = {"a0", "a1"}
   ActFs = {"a0", "a1"}
